@@ -4,7 +4,9 @@ Steps: scratch worktree of /repo HEAD (outside /repo and /verif, removed afterwa
 patch applies, builds, demo fails with the patch, baseline stable tests still pass; then the patch is applied to /repo,
 the check is run, and /repo is restored."""
 import json, os, shutil, subprocess, sys, tempfile
-seed, prop, pkg = sys.argv[1], sys.argv[2], sys.argv[3]
+seed, prop, pkg = os.path.abspath(sys.argv[1]), sys.argv[2], sys.argv[3]
+if subprocess.run(['git', '-C', '/repo', 'status', '--porcelain'], capture_output=True, text=True).stdout.strip():
+    sys.exit('seedcheck: /repo has uncommitted changes; commit them first (this tool restores /repo with git checkout)')
 env = dict(os.environ, GOFLAGS='-mod=mod', GOPROXY='off', GOSUMDB='off', GOTOOLCHAIN='local')
 def sh(cmd, cwd=None, check=False):
     r = subprocess.run(cmd, cwd=cwd, env=env, capture_output=True, text=True, shell=isinstance(cmd, str))
